@@ -9,7 +9,8 @@ use crate::{
     convert::STD_NUM_NONZERO_PREFIX,
     type_entry::{
         DefaultKind, EnumTagType, StructProperty, StructPropertyRename, StructPropertyState,
-        TypeEntry, TypeEntryDetails, TypeEntryEnum, TypeEntryNewtype, TypeEntryStruct, Variant,
+        TypeEntry, TypeEntryDetails, TypeEntryEnum, TypeEntryNewtype, TypeEntryNewtypeConstraints,
+        TypeEntryStruct, Variant,
         VariantDetails, WrappedValue,
     },
     util::{sanitize, Case},
@@ -171,8 +172,42 @@ impl TypeEntry {
                     .ok_or_else(|| Error::invalid_value())
             }
 
-            TypeEntryDetails::Newtype(TypeEntryNewtype { type_id, .. }) => {
-                validate_type_id(type_id, type_space, default)
+            TypeEntryDetails::Newtype(TypeEntryNewtype {
+                type_id,
+                constraints,
+                ..
+            }) => {
+                let kind = validate_type_id(type_id, type_space, default)?;
+                // The generated type refuses values that violate its
+                // constraints, so its default must satisfy them as well.
+                let ok = match constraints {
+                    TypeEntryNewtypeConstraints::None => true,
+                    TypeEntryNewtypeConstraints::EnumValue(values) => {
+                        values.iter().any(|WrappedValue(v)| v == default)
+                    }
+                    TypeEntryNewtypeConstraints::DenyValue(values) => {
+                        !values.iter().any(|WrappedValue(v)| v == default)
+                    }
+                    TypeEntryNewtypeConstraints::String {
+                        max_length,
+                        min_length,
+                        pattern,
+                    } => default.as_str().map_or(false, |s| {
+                        let n = s.chars().count();
+                        max_length.map_or(true, |max| n <= max as usize)
+                            && min_length.map_or(true, |min| n >= min as usize)
+                            && pattern.as_ref().map_or(true, |p| {
+                                regress::Regex::new(p)
+                                    .map(|re| re.find(s).is_some())
+                                    .unwrap_or(false)
+                            })
+                    }),
+                };
+                if ok {
+                    Ok(kind)
+                } else {
+                    Err(Error::invalid_value())
+                }
             }
             TypeEntryDetails::Option(type_id) => {
                 if let serde_json::Value::Null = default {
